@@ -18,7 +18,8 @@ for n in sorted(os.listdir(f'{ROOT}/seeded')):
     clause=next((l for l in m.get('check_result',[]) if l.startswith('violated')), '')
     clause=re.sub(r'detail=.*','',clause).replace('violated ','').strip()
     note='missed at first, check strengthened: '+m['history'].split(';')[0][:160] if 'history' in m else 'caught as built'
-    srows.append(f"| {n} | {m['property']} | {m.get('needs_to_manifest','')} | {'yes ('+clause+')' if m.get('caught') else 'NO'} | {note} |")
+    if m.get('not_caught_reason'): note=m['not_caught_reason']
+    srows.append(f"| {n} | {m['property']} | {m.get('needs_to_manifest','')} | {'yes ('+clause+')' if m.get('caught') else 'NO (see note)'} | {note} |")
 seeds="\n".join(srows)
 arows=["| property | level | phases (evaluations in the quick tier) | evaluations | distinct non-trivial | exhaustive sub-domains | replays | wall (s, 16 cores) |","|----|----|----|----|----|----|----|----|"]
 for i in range(1,21):
